@@ -29,6 +29,12 @@ fn shape_blocks(cs: u64) -> (u64, usize) {
     (in_off, ((n as u64) * cs - in_off) as usize)
 }
 
+fn any_in(lo: u64, hi: u64) -> u64 {
+    let x: u64 = kani::any();
+    kani::assume(x >= lo && x <= hi);
+    x
+}
+
 fn entries_any() -> ([u64; 4], [u64; 4], [u64; 4]) {
     (kani::any(), kani::any(), kani::any())
 }
@@ -43,7 +49,7 @@ fn entries_distinct() -> ([u64; 4], [u64; 4], [u64; 4]) {
 }
 
 macro_rules! ge_lookup {
-    ($name:ident, $blo:expr, $bhi:expr, $flo:expr, $shape:ident, $entries:ident) => {
+    ($name:ident, $base:expr, $first:expr, $shape:ident, $entries:ident) => {
 #[kani::proof]
 #[kani::unwind(6)]
 #[kani::stub(std::fmt::format, fmt_stub2)]
@@ -52,8 +58,7 @@ fn $name() {
     let info = mk_info(cb, 4, 1u64 << 40, 9, Some((9, 1024)), Some((9, 1024)), false, false, false);
     let mut env = KEnv::new(info);
     let cs = 1u64 << cb;
-    let base: usize = kani::any();
-    kani::assume(base >= $blo && base <= $bhi);
+    let base: usize = $base;
     let (a, b, w): ([u64; 4], [u64; 4], [u64; 4]) = $entries(); // slice0[60..64], slice1[0..4], slice0[0..4]
     let mut s0 = L2Table::new(Some(0x10000), 512, cb as usize);
     let mut s1 = L2Table::new(Some(0x10200), 512, cb as usize);
@@ -67,8 +72,7 @@ fn $name() {
     env.l2cache = KCache { base, s: [Some(KHandle::new(s0)), Some(KHandle::new(s1))], cached: [kani::any(), kani::any()] };
     env.l1_entry = unsafe { core::mem::transmute::<u64, L1Entry>(0x8000_0000_0005_0000u64) };
     // request: first cluster = slice0 entry 61..=63, 1..=4 clusters
-    let first_idx: u64 = kani::any();
-    kani::assume(first_idx >= $flo && first_idx <= 63);
+    let first_idx: u64 = $first;
     let first_cluster = ((base as u64) << 6) + first_idx;
     let (in_off, len) = $shape(cs);
     let off = (first_cluster << cb) + in_off;
@@ -103,7 +107,7 @@ fn $name() {
 // @bounds two adjacent 64-entry slices (512-byte slices) with pairwise distinct entries in the last 4 slots of the first, the first 4 of the second and the first 4 of the first (wrap-around witnesses); request: starts in the LAST cluster of the first slice (slice key 3, concrete), covers 1..=3 clusters and starts at the cluster boundary or 0x1200 bytes into the cluster; 64 KiB clusters (concrete); cached/uncached symbolic; both L1 entries non-zero
 // @funcs Qcow2Dev::get_l2_entries (whole body) SplitGuestOffset::{l2_slice_key,l2_slice_index} L2Table::get_entry Qcow2Info::{cluster_round_up,cluster_round_down}
 // @stub alloc::fmt::format -> String::new()
-ge_lookup!(c01_l2_entries_lookup, 3, 3, 63, shape_blocks, entries_distinct);
+ge_lookup!(c01_l2_entries_lookup, 3usize, 63u64, shape_blocks, entries_distinct);
 
 // @harness c01_l2_entries_lookup_wide
 // @props C01 C09
@@ -115,4 +119,4 @@ ge_lookup!(c01_l2_entries_lookup, 3, 3, 63, shape_blocks, entries_distinct);
 // @bounds two adjacent 64-entry slices (512-byte slices), arbitrary entries in the last 4 of the first, the first 4 of the second and the first 4 of the first (wrap-around witnesses); request: starts in the last 2 clusters of the first slice (slice key < 16), spans 1..=3 clusters, any in-cluster offsets; 64 KiB clusters (concrete); cached/uncached symbolic; both L1 entries non-zero
 // @funcs Qcow2Dev::get_l2_entries (whole body) SplitGuestOffset::{l2_slice_key,l2_slice_index} L2Table::get_entry Qcow2Info::{cluster_round_up,cluster_round_down}
 // @stub alloc::fmt::format -> String::new()
-ge_lookup!(c01_l2_entries_lookup_wide, 0, 15, 62, shape_any, entries_any);
+ge_lookup!(c01_l2_entries_lookup_wide, any_in(0, 15) as usize, any_in(62, 63), shape_any, entries_any);
